@@ -133,6 +133,12 @@ func comboJSON(cs []jCombo) []any {
 			m["percent"] = toPct(c.Pct[0]).String()
 		} else {
 			m["rate"] = "exempt"
+			if len(c.Stale) > 0 {
+				m["percent"] = toPct(c.Stale[0]).String()
+				if len(c.Stale) > 1 {
+					m["surcharge"] = toPct(c.Stale[1]).String()
+				}
+			}
 		}
 		if len(c.Sur) > 0 {
 			m["surcharge"] = toPct(c.Sur[0]).String()
@@ -760,6 +766,12 @@ func rCombos(r *rand.Rand) []jCombo {
 	switch r.Intn(7) {
 	case 0:
 		cb.Pct = []tr.Amt{}
+		switch r.Intn(3) {
+		case 0:
+			cb.Stale = []tr.Amt{{V: tr.BigOfInt(21), E: 2}}
+		case 1:
+			cb.Stale = []tr.Amt{{V: tr.BigOfInt(21), E: 2}, {V: tr.BigOfInt(52), E: 3}}
+		}
 	case 1:
 		cb.Sur = []tr.Amt{{V: tr.BigOfInt(52), E: 3}}
 	}
